@@ -1,6 +1,8 @@
 package optimizer
 
 import (
+	"reflect"
+
 	. "github.com/antonmedv/expr/ast"
 )
 
@@ -11,6 +13,10 @@ func (*inRange) Exit(node *Node) {
 	switch n := (*node).(type) {
 	case *BinaryNode:
 		if n.Operator == "in" || n.Operator == "not in" {
+			if t := n.Left.Type(); t != nil && (t.Kind() != reflect.Int || t.PkgPath() != "") {
+				// Comparisons agree with membership only for plain integers.
+				return
+			}
 			if rng, ok := n.Right.(*BinaryNode); ok && rng.Operator == ".." {
 				if from, ok := rng.Left.(*IntegerNode); ok {
 					if to, ok := rng.Right.(*IntegerNode); ok {
